@@ -439,8 +439,8 @@ pub fn leaves(q: &Value) -> usize {
 /// VERIF_UNSTEER=F37,F39 in the environment switches the steering around the named recorded findings off
 /// (to test a candidate repair with tools/with_patch.sh)
 pub fn unsteered(f: &str) -> bool {
-    // F37 and F39 are repaired in /repo (fix commits): their classes are explored by default
-    if f == "F37" || f == "F39" {
+    // F37, F39 and F53 are repaired in /repo (fix commits): their classes are explored by default
+    if f == "F37" || f == "F39" || f == "F53" {
         return true;
     }
     std::env::var("VERIF_UNSTEER").map(|v| v.to_uppercase().split(',').any(|x| x.trim() == f)).unwrap_or(false)
